@@ -328,7 +328,7 @@ func gen(r *sim.Rng, tier string) *sim.Case {
 		}
 		c.Sched.Stalls = []sim.Stall{
 			{T: 0, AfterS: r.Range(3, 12), For: r.Range(40, 150)},
-			{T: 3, At: 0, For: r.Range(8, 40)}, // the pusher starts late ...
+			{T: 3, At: 0, For: r.Range(8, 40)},               // the pusher starts late ...
 			{T: 3, At: 0, AfterW: aw, For: r.Range(40, 160)}, // ... and is descheduled in the middle of a push
 		}
 		c.Sched.FreezeAt = r.Range(30, 160)
